@@ -47,7 +47,12 @@ def run(prop, tier, seed):
             raise MachineryError("generator produced only %d texts" % len(gen))
         if not big:
             gen = gen[:600] + rnd.sample(gen[600:], 5400)
-        texts = gen + assembled_texts(rnd, 4000 if not big else 80000) + corpus.arbitrary_text(rnd, 1500 if not big else 20000)
+        # boundary inputs: the shortest / longest vectors of every version, alone, delimited and glued
+        ext = []
+        for ver in "234":
+            for v in corpus.extremal_vectors(rnd, ver):
+                ext += [v[3], "x " + v[3] + " y", "(" + v[3] + ")", v[3] + "\n" + v[3], v[3] + "x", "CVSS:" + v[3]]
+        texts = gen + ext + assembled_texts(rnd, 4000 if not big else 80000) + corpus.arbitrary_text(rnd, 1500 if not big else 20000)
         texts = list(dict.fromkeys(texts))
         items = [{"op": "text", "text": esc(t)} for t in texts]
         ev = record_events(items, work)
